@@ -5,7 +5,9 @@
     granularity (PrefixSafe after every operation);
 (3) every crash prefix is materialised and reopened with the real readers; TLC judges that an accepted
     prefix serves exactly what the complete file serves;
-(4) every single operation is failed in turn; TLC judges that the call did not report success."""
+(4) every single operation is failed in turn; TLC judges that the call did not report success;
+(5) inputs refused part-way (one unrepresentable record at the first / a middle / the last position): what the destination is
+    left with is rejected by the readers or serves exactly the valid prefix."""
 import json, random
 from pyverif.core import *
 from pyverif import bbi_codec
@@ -111,6 +113,29 @@ def main():
         raise ToolError("sink trace validation gave no verdict:\n" + r.out[-2000:])
     else:
         run.cov["traces_validated_against_impl"] += len(obs)
+    # (5) refused inputs: the same layouts with ONE record made unrepresentable (start beyond its end) at the first, a middle
+    #     and the last position: what the destination is left with after the error
+    refused = []
+    for c in lay:
+        if c.get("big"):
+            continue
+        n = len(c["items"])
+        for j in sorted({0, n // 2, n - 1}):
+            it = c["items"][j]
+            if it[1] == it[2]:
+                continue
+            items = [list(x) for x in c["items"]]
+            items[j][1], items[j][2] = it[2], it[1]
+            valid = [[x[0], x[1], x[2], (x[3] if c["kind"] == "bw" else i + 1)] for i, x in enumerate(c["items"][:j])]
+            refused.append(dict(c, items=items, mode="refused", at=j, valid=valid))
+    robs = run_harness("sink", refused, run.wd, hang_timeout=15, max_hangs=3)
+    robs = [o for o in robs if o["obs"].get("result") != "skipped"]
+    for o in robs:
+        o.pop("case", None)
+        lines.append(json.dumps({"mode": "refused", "valid": o["valid"], "obs": o["obs"]}, separators=(",", ":")))
+        run.count_case(json.dumps([o["kind"], o["items"], o["opts"], "refused", o["at"]]), True)
+    run.cov["refused_inputs"] = len(robs)
+    run.cov["refused_inputs_left_readable"] = sum(1 for o in robs if o["obs"].get("left", {}).get("acc") == 1)
     # (3)+(4)
     fobs = run_harness("sink", fault_cases, run.wd, hang_timeout=15, max_hangs=3)
     for o in fobs:
@@ -119,7 +144,7 @@ def main():
             continue
         lines.append(json.dumps({"mode": "fault", "obs": o["obs"]}, separators=(",", ":")))
         run.count_case(json.dumps([o["kind"], o["items"][:50], len(o["items"]), o["opts"], o["fault"]]), True)
-    allobs = obs + [o for o in fobs if o["obs"].get("result") != "skipped"]
+    allobs = obs + robs + [o for o in fobs if o["obs"].get("result") != "skipped"]
     bad = validate_obs("Obs_Sink", "Obs.cfg", lines, run.wd, "obs")
     run.cov["traces_validated_against_impl"] += len(fobs)
     run.cov["crash_prefixes_reopened"] = sum(len(o["obs"].get("prefixes", [])) for o in obs)
@@ -129,7 +154,7 @@ def main():
         tags[tag] = tags.get(tag, 0) + 1
         o = allobs[i]
         small = {k: (o[k] if not (k == "items" and o.get("big")) else o[k][:6] + ["... %d items: [c, p, p+1+i%%3, 1+i%%5], p += 1+i%%3 (+2 every 4th)" % len(o[k])]) for k in o if k not in ("obs", "dump")}
-        run.violation("C14 %s: %s fault=%s -> %s" % (tag, json.dumps(small)[:260], o.get("fault"), json.dumps({k: o["obs"].get(k) for k in ("result", "fired", "nops")})),
+        run.violation("C14 %s: %s fault=%s -> %s" % (tag, json.dumps(small)[:260], o.get("fault"), json.dumps({k: o["obs"].get(k) for k in ("result", "fired", "nops", "left")})[:300]),
                       {"kind": "sink", "tag": tag, "case": small, "obs": {k: o["obs"].get(k) for k in ("result", "fired", "nops", "fault")}})
     if tags:
         log("[C14] failing observations by tag: %s" % tags)
